@@ -1,9 +1,11 @@
 import DaskModel.DriverLib
 import DaskModel.Model.Chunks
 import DaskModel.Model.Creation
+import DaskModel.Model.Structural
 open Dask
 open Dask.Chunks
 open Dask.Creation
+open Dask.Structural
 
 /-! Line-protocol handlers of group `chunks` (C23, C24, C27, C34). -/
 
@@ -170,7 +172,72 @@ def hDiag : Handler := handler fun args =>
   | _ => none
 
 
+
+/-! ### C24 structural -/
+
+/-- `(concat_plan (counts…))` ↦ for every output block `(i j)` -/
+def hConcatPlan : Handler := handler fun args =>
+  match args with
+  | [counts] => do
+    let counts ← counts.toNats?
+    pure (.list ((List.range (Chunks.sum counts)).map (fun b =>
+      match concatPlan counts b with
+      | some (i, j) => SExp.ofNats [i, j]
+      | none => .sym "none")))
+  | _ => none
+
+def decMode : SExp → Option PadMode
+  | .sym "reflect" => some .reflect
+  | .sym "symmetric" => some .symmetric
+  | .sym "wrap" => some .wrap
+  | _ => none
+
+/-- `(pad mode (xs…) l r)` ↦ `(reuse spec)` : dask's `pad_reuse` plan and NumPy's periodic extension -/
+def hPad : Handler := handler fun args =>
+  match args with
+  | [m, xs, l, r] => do
+    let m ← decMode m
+    let xs ← xs.toInts?
+    let l ← l.toNat?
+    let r ← r.toNat?
+    pure (.list [SExp.ofInts (padReuse m xs l r), SExp.ofInts (padSpec m xs l r)])
+  | _ => none
+
+def hPadChunks : Handler := handler fun args =>
+  match args with
+  | [c, cs, w] => do pure (SExp.ofNats (padChunks (← c.toBool?) (← cs.toNats?) (← w.toNat?)))
+  | _ => none
+
+def hRoll : Handler := handler fun args =>
+  match args with
+  | [xs, s] => do
+    let xs ← xs.toInts?
+    let s ← s.toInt?
+    pure (.list [SExp.ofInts (roll xs s), SExp.ofInts (rollSpec xs s)])
+  | _ => none
+
+def hExpandTuple : Handler := handler fun args =>
+  match args with
+  | [cs, f] => do pure (SExp.ofNats (expandTuple (← cs.toNats?) (← f.toNat?)))
+  | _ => none
+
+def hContractTuple : Handler := handler fun args =>
+  match args with
+  | [cs, f] => do
+    match contractTuple (← cs.toNats?) (← f.toNat?) with
+    | some r => pure (.list [.sym "ok", SExp.ofNats r])
+    | none => pure (.list [.sym "raised"])
+  | _ => none
+
+def hLowerDim : Handler := handler fun args =>
+  match args with
+  | [a, b] => do pure (SExp.ofNats (lowerDimChunks (← a.toNats?) (← b.toNats?)))
+  | _ => none
+
+
 def table : List (String × Handler) := [
+  ("concat_plan", hConcatPlan), ("pad", hPad), ("pad_chunks", hPadChunks), ("roll", hRoll),
+  ("expand_tuple", hExpandTuple), ("contract_tuple", hContractTuple), ("lower_dim", hLowerDim),
   ("arange", hArange), ("linspace", hLinspace), ("eye", hEye), ("diag", hDiag),
   ("normalize", hNormalize), ("blockdims", hBlockdims), ("intersect1d", hIntersect),
   ("old_to_new", hOldToNew), ("rechunk1d", hRechunk1d), ("divide_to_width", hDivide),
